@@ -10,6 +10,9 @@ import (
 	"time"
 
 	"github.com/andydunstall/piko/pkg/gossip"
+	"github.com/andydunstall/piko/pkg/log"
+	"github.com/andydunstall/piko/server/cluster"
+	sgossip "github.com/andydunstall/piko/server/gossip"
 
 	"verif/harness/vlib"
 )
@@ -73,9 +76,16 @@ func mutate(c *vlib.Case, b []byte) []byte {
 	return out
 }
 
+// The victim is wired as a server node is: the watcher of its gossip state is the
+// real syncer in front of a real routing table, so whatever a received message
+// makes the state announce is also folded by production code, on the handler's
+// goroutine.
 func victim() (*gossip.VerifNode, *pktCap) {
 	pc := &pktCap{}
-	n := gossip.VerifNewNode("victim", "127.0.0.1:7000", 1400, 100*time.Millisecond, pc, nil)
+	cs := cluster.NewState(&cluster.Node{ID: "victim", ProxyAddr: "10.0.0.1:8000", AdminAddr: "10.0.0.1:8002"}, log.NewNopLogger())
+	sy := sgossip.VerifNewSyncer(cs)
+	n := gossip.VerifNewNode("victim", "127.0.0.1:7000", 1400, 100*time.Millisecond, pc, sy)
+	sy.VerifSync(n.State)
 	n.State.UpsertLocal("proxy_addr", "10.0.0.1:8000")
 	n.State.UpsertLocal("admin_addr", "10.0.0.1:8002")
 	n.State.UpsertLocal("endpoint:e1", "2")
@@ -108,7 +118,7 @@ func aboutVictim(c *vlib.Case, base uint64) gossip.VerifDelta {
 }
 
 func TestC13Hostile(t *testing.T) {
-	vlib.SetRule("C13", "TestC13Hostile", "structured mutations (bit flips, hostile msgpack constants, truncation at any offset, 12 kinds of length/count bombs, slice duplication/deletion, garbage tails) of valid digest/delta datagrams and join/leave streams, plus well-formed deltas about the receiver itself (left marker, bogus compaction values, forged addresses) sent as datagram, join and leave; fed to the real packet and stream handlers; oracle: returns (error or not) within 20 s without panicking, the receiver's own published state and flags are identical before and after; non-trivial = the input passes the type/version check (reaches the decoder)")
+	vlib.SetRule("C13", "TestC13Hostile", "structured mutations (bit flips, hostile msgpack constants, truncation at any offset, 12 kinds of length/count bombs, slice duplication/deletion, garbage tails) of valid digest/delta datagrams and join/leave streams, plus well-formed deltas about the receiver itself (left marker, bogus compaction values, forged addresses) sent as datagram, join and leave; fed to the real packet and stream handlers of a node wired like a server node (the real syncer and routing table receive what the gossip state announces); oracle: returns (error or not) within 20 s without panicking, the receiver's own published state and flags are identical before and after; non-trivial = the input passes the type/version check (reaches the decoder)")
 	vlib.Run(t, "C13", func(c *vlib.Case) {
 		n, _ := victim()
 		// a hostile peer sends several messages: state created by one (for instance a
